@@ -53,11 +53,12 @@ def iso_stage(ctx, zr, name, eng, policy, args, stats, samples, expect=None):
     stats["runs"].append({"stage": name, **{k: summ[k] for k in summ if k not in ("driver", "by_op")}})
 
 
-def idx_stage(ctx, zr, name, eng, policy, args, stats, samples):
+def idx_stage(ctx, zr, name, eng, policy, args, stats, samples, expect=None):
     """Secondary hash indexes with table-prefix neighbours (idxsim + ZIndexTrace)."""
     summ, files = S.drive(ctx, zr, "idxsim", name, ["-eng", eng, "-policy", policy, "-seed", str(ctx.seed)] + args, parts=2)
     if summ is None:
         return
+    got = 0
     for f, events, mm in S.validate(ctx, "ZIndexTrace", "ZIndexTrace.cfg", files, name):
         stats["index_events"] += len(events)
         stats["index_searches"] += sum(1 for e in events if e.get("ev") == "q")
@@ -70,12 +71,20 @@ def idx_stage(ctx, zr, name, eng, policy, args, stats, samples):
             e = seg[-1]
             sig = {"driver": "idxsim", "engine": eng, "policy": policy, "event": e.get("ev"),
                    "class": "error" if e.get("err") else "foreign-key" if -1 in e.get("res", []) else "wrong-result"}
+            if e.get("ev") == "q":
+                ints = seg[0].get("int", [])
+                sig["int_extreme"] = bool(1 <= e.get("t", 0) <= len(ints) and ints[e["t"] - 1] and (
+                    (e.get("lo") == 5 and not e.get("il")) or (e.get("hi") == 1 and not e.get("ih"))))
+                sig["unique"] = bool(seg[0].get("unique", [False] * 3)[e["t"] - 1]) if 1 <= e.get("t", 0) <= 3 else False
             txt = "%s/%s: %s line %d: tables %s; observed %s; ZIndex expects %s" % (
                 eng, policy, os.path.basename(f), line, json.dumps(seg[0].get("tabs")), json.dumps(e, sort_keys=True)[:300], what[:300])
             segf = os.path.join(ctx.sub("fail"), "%s-%s-%d.ndjson" % (name, os.path.basename(f), line))
             V.write_ndjson(segf, seg)
             stats["mismatches"] += 1
+            got += 1
             V.report_failure(ctx, sig, txt, files=[segf], script={"idxsim": args, "engine": eng, "policy": policy})
+    if expect and got == 0:
+        ctx.notes.append("isolate stage %s produced no failure: known finding %s may be fixed" % (name, expect))
     stats["runs"].append({"stage": name, **{k: summ[k] for k in summ if k != "driver"}})
 
 
@@ -225,7 +234,7 @@ def run(ctx):
               expect="C12-mem-expiry-pass-deadlock")
     # secondary hash indexes: DDL through schema-change proposals, build on existing data (the store's
     # asynchronous loop, polled), incremental writes, searches; tables whose names are prefixes of each other
-    nidx = "6" if q else "60"
+    nidx = "4" if q else "60"
     idx_stage(ctx, zr, "index-pebble-local", "pebble", "local", ["-segments", nidx], stats, samples)
     idx_stage(ctx, zr, "index-pebble-compact", "pebble", "compact", ["-segments", nidx], stats, samples)
     idx_stage(ctx, zr, "index-mem-local", "mem", "local", ["-segments", nidx], stats, samples)
@@ -268,9 +277,13 @@ def run(ctx):
         "bitmap (SETBITV2 / BITCLEAR), JSON (JSON.SET / JSON.DEL of a whole document) and HyperLogLog (PFADD / DEL, read "
         "back with PFCOUNT) tuples are part of the command mix; bitmap and HLL tuples use key names of their own because "
         "they share the kv keyspace by design; replies of PFADD and of DEL on an HLL key are not modelled (C07 write-cache "
-        "finding); secondary hash indexes have a stage of their own (idxsim / ZIndexTrace: string index on one field, equality "
-        "searches, DDL add / build-on-existing-data / ready / delete, hset / hdel / hclear while ready; no writes while an index is "
-        "being built; JSON indexes, unique and numeric indexes and range conditions are not driven)",
+        "finding); secondary hash indexes have a stage of their own (idxsim / ZIndexTrace: string- and int64-typed, unique and "
+        "non-unique indexes on one field; conditions =, <, <=, >, >= and range pairs with bounds that are stored values incl. the "
+        "smallest / largest int64; DDL add / build-on-existing-data / ready / delete, hset / hdel / hclear while ready; under a "
+        "unique index no two hashes of a table carry the same value; no writes while an index is being built; JSON indexes, "
+        "prefix-length indexes, offsets / limits and HIDX through the server are not driven)",
+        "sorted-set lexicographic range commands (ZRANGEBYLEX / ZLEXCOUNT / ZREMRANGEBYLEX) are issued only when all members of "
+        "the set have one score (Redis leaves the other case undefined); bounds are the sub-key names incl. the empty one, and '-' / '+'",
         "whole-table delete is checked with DeleteTableRange.CheckValid and built exactly like KVNode.DeleteRange builds its "
         "proposal, then applied through the state machine; a refused delete (reply -998) must change nothing",
         "mem engine: prefix-free name pools only (recorded C20 finding on radix iterators), no expiry pass (recorded finding)",
